@@ -14,25 +14,124 @@ open E2E RF
     torrent's name for a single file -/
 def fileNameOf (name : Bytes) (cs : List Bytes) : Bytes := (name :: cs).getLast?.getD name
 
-/-- all four v2-capable creators: what was written, as `extract` / the checker read it -/
+/-- the metafile was written by a pure v2 creator (`TorrentFileV2`, `TorrentAssembler` "2"): the
+    only case in which `extract` cannot tell the directory `name/{name: file}` from a single file
+    (a hybrid metafile of a directory carries a `files` list; since commit 777cf99 `extract` then
+    does not apply the single-file rule) -/
+def PureV2 (o : CreateOpts) (H H1 : Bytes → Bytes) (B hs : Nat)
+    (enum : List (Bytes × FTree) → List (Bytes × FTree)) (t : Node) (r : BVal) (b : Bytes) : Prop :=
+  createV2Class o H B hs enum t = some (r, b) ∨ createAsm false o H H1 B hs enum t = some (r, b)
+
+theorem infoGet_eq (r : BVal) (info : Dict) (h : r.get? K.info = some (.dict info)) (k : Bytes) :
+    r.infoGet? k = dictGet info k := by
+  unfold BVal.infoGet?; rw [h]; rfl
+
+/-- all four v2-capable creators: what was written, as `extract` / the checker read it; `info` has
+    a `files` key only for a directory (hybrid), and then always -/
 theorem written_of_v2capable (o : CreateOpts) (H H1 : Bytes → Bytes) (B hs j : Nat) (hB : 0 < B)
     (hpl : o.pieceLength = 2 ^ j * B)
     (enum : List (Bytes × FTree) → List (Bytes × FTree)) (henum : ∀ l, (enum l).Perm l)
     (t : Node) (hwn : WellNamed t) (r : BVal) (b : Bytes)
     (hc : WrittenV2Capable o H H1 B hs enum t r b) :
-    ∃ info, V2Written o H B hs (2 ^ j) enum t r b info := by
+    ∃ info, V2Written o H B hs (2 ^ j) enum t r b info ∧
+      (dictHas info K.files = true → ∃ es, t = .dir es) ∧
+      ((PureV2 o H H1 B hs enum t r b → ∀ d, t ≠ .dir [(o.name, .file d)]) →
+        dictHas info K.files = false → ∀ d, t ≠ .dir [(o.name, .file d)]) := by
   have hbpp := Nat.two_pow_pos j
+  have v2case : createV2Class o H B hs enum t = some (r, b) → PureV2 o H H1 B hs enum t r b →
+      ∃ info, V2Written o H B hs (2 ^ j) enum t r b info ∧
+        (dictHas info K.files = true → ∃ es, t = .dir es) ∧
+        ((PureV2 o H H1 B hs enum t r b → ∀ d, t ≠ .dir [(o.name, .file d)]) →
+          dictHas info K.files = false → ∀ d, t ≠ .dir [(o.name, .file d)]) := by
+    intro h hp
+    obtain ⟨info, hw, hfiles⟩ := v2class_written o H B hs (2 ^ j) hB hpl enum henum t hwn r b h
+    refine ⟨info, hw, ?_, fun hv _ => hv hp⟩
+    intro hh; simp [dictHas, hfiles] at hh
+  have hycase : createHybridClass o H H1 B hs enum t = some (r, b) →
+      ∃ info, V2Written o H B hs (2 ^ j) enum t r b info ∧
+        (dictHas info K.files = true → ∃ es, t = .dir es) ∧
+        ((PureV2 o H H1 B hs enum t r b → ∀ d, t ≠ .dir [(o.name, .file d)]) →
+          dictHas info K.files = false → ∀ d, t ≠ .dir [(o.name, .file d)]) := by
+    intro h
+    obtain ⟨info, hw, hfiles⟩ := hybrid_written o H H1 B hs (2 ^ j) hB hbpp hpl enum henum t hwn r b h
+    refine ⟨info, hw, ?_, ?_⟩
+    · intro hh
+      cases t with
+      | dir es => exact ⟨es, rfl⟩
+      | file d =>
+        exfalso
+        rw [createHybridClass_file o H H1 B hs (2 ^ j) hB hbpp hpl] at h
+        obtain ⟨hs2, _⟩ := written_some _ r b h
+        have hk := hybrid_keys _ _ _ _ _ r hs2
+        have hnone : dictGet info K.files = none := by
+          rw [← infoGet_eq r info hw.hm.hinfo]; exact hk.files
+        simp [dictHas, hnone] at hh
+    · intro _ hfalse d e
+      have := hfiles _ e
+      simp [dictHas, this] at hfalse
   rcases hc with h | h | h | ⟨h20, h⟩
-  · obtain ⟨info, hw, _⟩ := v2class_written o H B hs (2 ^ j) hB hpl enum henum t hwn r b h
-    exact ⟨info, hw⟩
-  · rw [createAsm_false_eq o H H1 B hs (2 ^ j) hB hbpp hpl] at h
-    obtain ⟨info, hw, _⟩ := v2class_written o H B hs (2 ^ j) hB hpl enum henum t hwn r b h
-    exact ⟨info, hw⟩
-  · obtain ⟨info, hw, _⟩ := hybrid_written o H H1 B hs (2 ^ j) hB hbpp hpl enum henum t hwn r b h
-    exact ⟨info, hw⟩
+  · exact v2case h (Or.inl h)
+  · have h' := h
+    rw [createAsm_false_eq o H H1 B hs (2 ^ j) hB hbpp hpl] at h'
+    exact v2case h' (Or.inr h)
+  · exact hycase h
   · rw [createAsm_true_eq o H H1 B hs (2 ^ j) hB hbpp hpl h20] at h
-    obtain ⟨info, hw, _⟩ := hybrid_written o H H1 B hs (2 ^ j) hB hbpp hpl enum henum t hwn r b h
-    exact ⟨info, hw⟩
+    exact hycase h
+
+/-- a hybrid metafile without a `files` key was made from a single file -/
+theorem hybrid_files_key (o : CreateOpts) (H H1 : Bytes → Bytes) (B hs j : Nat) (hB : 0 < B)
+    (hpl : o.pieceLength = 2 ^ j * B)
+    (enum : List (Bytes × FTree) → List (Bytes × FTree)) (henum : ∀ l, (enum l).Perm l)
+    (t : Node) (hwn : WellNamed t) (r : BVal) (b : Bytes)
+    (hc : createHybridClass o H H1 B hs enum t = some (r, b) ∨
+          ((∀ x, (H1 x).length = 20) ∧ createAsm true o H H1 B hs enum t = some (r, b)))
+    (info : Dict) (hinfo : r.get? K.info = some (.dict info)) (hfalse : dictHas info K.files = false) :
+    ∃ d, t = .file d := by
+  have hbpp := Nat.two_pow_pos j
+  have h : createHybridClass o H H1 B hs enum t = some (r, b) := by
+    rcases hc with h | ⟨h20, h⟩
+    · exact h
+    · rwa [createAsm_true_eq o H H1 B hs (2 ^ j) hB hbpp hpl h20] at h
+  obtain ⟨info', hw, hfiles⟩ := hybrid_written o H H1 B hs (2 ^ j) hB hbpp hpl enum henum t hwn r b h
+  have : info' = info := by
+    have := hw.hm.hinfo
+    rw [hinfo] at this
+    injection this with this
+    injection this with this
+    exact this.symm
+  subst this
+  cases t with
+  | file d => exact ⟨d, rfl⟩
+  | dir es =>
+    have := hfiles es rfl
+    simp [dictHas, this] at hfalse
+
+/-- the bytes a hybrid creator writes for a directory are not the bytes of a pure v2 creator: they
+    carry a `files` list -/
+theorem not_pureV2_of_hybrid_dir (o : CreateOpts) (H H1 : Bytes → Bytes) (B hs j : Nat) (hB : 0 < B)
+    (hpl : o.pieceLength = 2 ^ j * B)
+    (enum : List (Bytes × FTree) → List (Bytes × FTree)) (henum : ∀ l, (enum l).Perm l)
+    (es : List (Bytes × Node)) (hwn : WellNamed (.dir es)) (r : BVal) (b : Bytes)
+    (hc : createHybridClass o H H1 B hs enum (.dir es) = some (r, b) ∨
+          ((∀ x, (H1 x).length = 20) ∧ createAsm true o H H1 B hs enum (.dir es) = some (r, b))) :
+    ¬ PureV2 o H H1 B hs enum (.dir es) r b := by
+  intro hp
+  have hbpp := Nat.two_pow_pos j
+  have h2 : createV2Class o H B hs enum (.dir es) = some (r, b) := by
+    rcases hp with h | h
+    · exact h
+    · rwa [createAsm_false_eq o H H1 B hs (2 ^ j) hB hbpp hpl] at h
+  obtain ⟨info, hw, hnone⟩ := v2class_written o H B hs (2 ^ j) hB hpl enum henum (.dir es) hwn r b h2
+  obtain ⟨d, e⟩ := hybrid_files_key o H H1 B hs j hB hpl enum henum (.dir es) hwn r b hc info hw.hm.hinfo
+    (by simp [dictHas, hnone])
+  cases e
+
+/-- the traversal of the directory `{n: file}` -/
+theorem traverse_namesake (enum : List (Bytes × FTree) → List (Bytes × FTree))
+    (henum : ∀ l, (enum l).Perm l) (n d : Bytes) :
+    ftreeFiles [] (traverse enum (.dir [(n, .file d)])) = [([n], d)] := by
+  have h1 : enum [(n, FTree.leaf d)] = [(n, .leaf d)] := List.perm_singleton.mp (henum _)
+  simp [traverse, traverseChildren, h1, ftreeFiles, ftreeFilesList]
 
 theorem nodup_map_cons (name : Bytes) (l : List (List Bytes)) (h : l.Nodup) :
     (l.map (name :: ·)).Nodup :=
@@ -56,8 +155,9 @@ theorem rec_facts (dest : Path) (hd : CleanPath dest) (name : Bytes) (hname : Sp
 theorem rebuild_v2_core (o : CreateOpts) (H1 H : Bytes → Bytes) (B hs j : Nat) (hB : 0 < B)
     (enum : List (Bytes × FTree) → List (Bytes × FTree)) (henum : ∀ l, (enum l).Perm l)
     (t : Node) (hwn : WellNamed t) (hplain : PlainNamed t) (hname : Spec.plainName o.name = true)
-    (hns : ∀ d, t ≠ .dir [(o.name, .file d)])
     (r : BVal) (b : Bytes) (info : Dict) (hw : V2Written o H B hs (2 ^ j) enum t r b info)
+    (hfk : dictHas info K.files = true → ∃ es, t = .dir es)
+    (hns : dictHas info K.files = false → ∀ d, t ≠ .dir [(o.name, .file d)])
     (ds : Nat) (fs : FS) (filemap : FileMap) (dest : Path) (hd : CleanPath dest)
     (hr : DestReady fs dest) (hok : FilemapOK fs dest filemap)
     (hfresh : ∀ cs, fs (dest ++ o.name :: cs) = none)
@@ -73,8 +173,8 @@ theorem rebuild_v2_core (o : CreateOpts) (H1 H : Bytes → Bytes) (B hs j : Nat)
   let hf := fhV2 H B hs (2 ^ j)
   let L := ftreeFiles [] (traverse enum t)
   have hload : loads b = some r := by rw [hw.hb]; exact loads_encode r hw.hcanon
-  obtain ⟨m, hm, _, hmpl, hmv, _, hmfiles, _⟩ := extractMeta_v2 o hf enum henum t hplain hname hns r info
-    (2 ^ j * B) hw.hm.hinfo hw.hm.hname hw.hm.hpl hw.hm.hmv hw.hft
+  obtain ⟨m, hm, _, hmpl, hmv, _, hmfiles, _⟩ := extractMeta_v2 o hf enum henum t hplain hname r info
+    (2 ^ j * B) hw.hm.hinfo hfk hns hw.hm.hname hw.hm.hpl hw.hm.hmv hw.hft
   have hLfa : ∀ x ∈ L, fileAt t x.1 = some x.2 := traverse_fileAt enum henum t hwn
   -- the hasher of `_match_v2`
   have hrootOf : (fun d => (hasherV2 H B hs (m.pieceLength.toNat / B) d).1) = fun d => (hf d).root := by
@@ -273,8 +373,10 @@ theorem extract_v2cap (o : CreateOpts) (H H1 : Bytes → Bytes) (B hs j : Nat) (
     (hpl : o.pieceLength = 2 ^ j * B)
     (enum : List (Bytes × FTree) → List (Bytes × FTree)) (henum : ∀ l, (enum l).Perm l)
     (t : Node) (hwn : WellNamed t) (hplain : PlainNamed t) (hname : Spec.plainName o.name = true)
-    (hns : ∀ d, t ≠ .dir [(o.name, .file d)]) (r : BVal) (b : Bytes)
-    (hc : WrittenV2Capable o H H1 B hs enum t r b) :
+    (r : BVal) (b : Bytes)
+    (hc : WrittenV2Capable o H H1 B hs enum t r b)
+    (hns : ∀ info, r.get? K.info = some (.dict info) → dictHas info K.files = false →
+      ∀ d, t ≠ .dir [(o.name, .file d)]) :
     ∃ m, (loads b).map extractMeta = some (.ok m) ∧ m.name = o.name ∧
       m.pieceLength = o.pieceLength ∧ m.metaVersion = some 2 ∧
       m.files = (ftreeFiles [] (traverse enum t)).map (recSpec o.name H B hs) ∧
@@ -282,10 +384,10 @@ theorem extract_v2cap (o : CreateOpts) (H H1 : Bytes → Bytes) (B hs j : Nat) (
       (∀ x ∈ ftreeFiles [] (traverse enum t), fileAt t x.1 = some x.2) ∧
       (∀ cs d, fileAt t cs = some d → (cs, d) ∈ ftreeFiles [] (traverse enum t)) ∧
       ((ftreeFiles [] (traverse enum t)).map (·.1)).Nodup := by
-  obtain ⟨info, hw⟩ := written_of_v2capable o H H1 B hs j hB hpl enum henum t hwn r b hc
+  obtain ⟨info, hw, hfk, _⟩ := written_of_v2capable o H H1 B hs j hB hpl enum henum t hwn r b hc
   have hload : loads b = some r := by rw [hw.hb]; exact loads_encode r hw.hcanon
   obtain ⟨m, hm, h1, h2, h3, _, h5, h6⟩ := extractMeta_v2 o (fhV2 H B hs (2 ^ j)) enum henum t hplain
-    hname hns r info (2 ^ j * B) hw.hm.hinfo hw.hm.hname hw.hm.hpl hw.hm.hmv hw.hft
+    hname r info (2 ^ j * B) hw.hm.hinfo hfk (hns info hw.hm.hinfo) hw.hm.hname hw.hm.hpl hw.hm.hmv hw.hft
   refine ⟨m, by rw [hload]; simp [hm], h1, by rw [h2, hpl], h3, ?_, h6,
     traverse_fileAt enum henum t hwn, ?_, ftreeFiles_paths_nodup enum henum t hwn⟩
   · rw [h5]
